@@ -19,7 +19,11 @@
         Float ::= Sign? ( Digit+ | Digit+ '.' Digit* | Digit* '.' Digit+ ) ( [eE] Sign? Digit+ )?
      The VALUE is kept exact as sign, decimal mantissa and decimal exponent (n_neg, n_mant, n_exp10): the
      f64 the implementation stores is `round_to_nearest_even (mant * 10^exp10)`, and that rounding function
-     is abstract here (the driver realises it with strtod only to compare bit patterns). *)
+     is abstract here (the driver realises it with strtod only to compare bit patterns).
+     Since b5c1992 a candidate is only accepted when the parsed f64 `is_finite()`.  dec2flt rounds correctly
+     (nearest, ties to even), f64::MAX = (2^53-1)*2^971 has an odd significand, so the rounded value is
+     finite exactly when  mant * 10^exp10 < 2^1024 - 2^970  (the midpoint between f64::MAX and 2^1024 already
+     rounds to infinity): `f64_finite`, decided exactly on the exact value. *)
 Require Import Base Tables_lexer.
 From Coq Require Import ZArith.
 
@@ -147,17 +151,39 @@ Definition parse_f64 (s : text) : option (bool * N * Z) :=
       end
   end.
 
+(* f64::is_finite of the correctly rounded value of mant * 10^ex  (see the header) *)
+Definition f64_overflow_bound : N := (2 ^ 1024 - 2 ^ 970)%N.
+Definition f64_finite (mant : N) (ex : Z) : bool :=
+  if (mant =? 0)%N then true else
+  match ex with
+  | Z0 => (mant <? f64_overflow_bound)%N
+  | Zpos e =>
+      (* 10^309 > bound and mant >= 1: no need to compute huge powers *)
+      if (309 <=? Npos e)%N then false else (mant * 10 ^ Npos e <? f64_overflow_bound)%N
+  | Zneg e =>
+      if (mant <? f64_overflow_bound)%N then true
+      else if (N.size mant <=? Npos e)%N then true            (* 10^e >= 2^e > mant *)
+      else (mant <? f64_overflow_bound * 10 ^ Npos e)%N
+  end.
+
+(* s.parse::<f64>().ok().filter(|n| n.is_finite()) *)
+Definition parse_finite (s : text) : option (bool * N * Z) :=
+  match parse_f64 s with
+  | Some (neg, mant, ex) => if f64_finite mant ex then Some (neg, mant, ex) else None
+  | None => None
+  end.
+
 (* s.chars().rev().position(|c| c == '.').unwrap_or_default() *)
 Definition precision_of (s : text) : nat :=
   match position (ceq 46) (rev s) with Some i => i | None => 0 end.
 
-(* while !s.is_empty() { if parse ok return; s.pop() } : n = current length of s *)
+(* while !s.is_empty() { if parse ok and finite return; s.pop() } : n = current length of s *)
 Fixpoint longest_float (n : nat) (s : text) : option (nat * tkind) :=
   match n with
   | 0 => None
   | S m =>
       let p := firstn n s in
-      match parse_f64 p with
+      match parse_finite p with
       | Some (neg, mant, ex) => Some (n, KNumber (mknumber neg mant ex None 10 (precision_of p)))
       | None => longest_float m s
       end
@@ -249,7 +275,8 @@ Definition lex_long_decade (u : uni) (src : text) : option (nat * tkind) :=
   end.
 
 (* ---------- lex_plural_digit ---------- *)
-Definition lex_plural_digit (src : text) : option (nat * tkind) :=
+(* since 7202fd4 the look-ahead after the `s` is char::is_alphanumeric (was is_ascii_alphanumeric) *)
+Definition lex_plural_digit (u : uni) (src : text) : option (nat * tkind) :=
   match src with
   | [] => None
   | c0 :: r1 =>
@@ -262,7 +289,7 @@ Definition lex_plural_digit (src : text) : option (nat * tkind) :=
       | c :: t => if ceq c 115 then
                     match t with
                     | [] => Some (i + 1, KWord)
-                    | d :: _ => if negb (is_ascii_alphanumeric d) then Some (i + 1, KWord) else None
+                    | d :: _ => if negb (u_alphanumeric u d) then Some (i + 1, KWord) else None
                     end
                   else None
       | [] => None
@@ -478,7 +505,7 @@ Definition lex_token (u : uni) (src : text) : option (nat * tkind) :=
  (or_else (lex_tabs src)
  (or_else (lex_spaces src)
  (or_else (lex_newlines src)
- (or_else (lex_plural_digit src)
+ (or_else (lex_plural_digit u src)
  (or_else (lex_hex_number u src)
  (or_else (lex_long_decade u src)
  (or_else (lex_number u src)
